@@ -111,7 +111,7 @@ def run_shards(binpath, check, tier, nshards, extra_args, wdir, seed, wall_cap):
             if idx is None:
                 print(tail)
                 die("shard %d died (rc=%s) before announcing a case" % (k, rc))
-            deaths.append({"shard": k, "index": idx, "rc": rc, "log_tail": tail, "tag": tag})
+            deaths.append({"shard": k, "index": idx, "rc": rc, "log_tail": tail, "tag": tag, "hang": rc == 86})
             # deaths on cases the harness tagged as belonging to a recorded construct do not count
             # against the restart budget (otherwise a recorded defect would stop the whole run)
             if tag == 0:
